@@ -1402,18 +1402,24 @@ func (g *gen) faultBase(kind, reader string, n int) {
 	var sels []string
 	both := func(s string) { sels = append(sels, s, s+"d") }
 	var cpos []int
-	if r.Thorough() || nc <= 4 {
+	switch {
+	case nc <= 4 || (r.Thorough() && nc <= 16):
 		for i := 0; i < nc; i++ {
 			cpos = append(cpos, i)
 		}
-	} else {
+	case r.Thorough():
+		cpos = []int{0, 1, nc - 2, nc - 1}
+		for k := 0; k < 8; k++ {
+			cpos = append(cpos, 2+r.R.Intn(nc-4))
+		}
+	default:
 		cpos = []int{0, 1 + r.R.Intn(nc-2), nc - 2, nc - 1}
 	}
 	for _, i := range cpos {
 		both(fmt.Sprintf("c%d", i))
 	}
 	for j := 0; j < nb; j++ {
-		if r.Thorough() || j < 2 || j == nb-1 {
+		if (r.Thorough() && nb <= 8) || j < 2 || j == nb-1 {
 			both(fmt.Sprintf("y%d", j))
 		}
 	}
@@ -1690,7 +1696,7 @@ func Run(r *hk.Run) {
 	}
 	nMore := 3
 	if r.Thorough() {
-		nMore = 40
+		nMore = 16
 	}
 	for i := 0; i < nMore; i++ {
 		rs := readers()
